@@ -53,11 +53,24 @@ type roAnalysis struct {
 	fRO      *types.Var
 	memo     map[*ssa.Function]int // 0 unknown, 1 guarded, 2 not, 3 in progress
 	writeMsk int64
+	// local, when set, replaces the ReadOnly test as the guard (the same call-graph reachability serves other gates); what names it in reports
+	local func(f *ssa.Function, instr ssa.Instruction) bool
+	what  string
 }
 
 // locallyGuarded: instr is reachable in its function only via ReadOnly==false edges.
 func (ra *roAnalysis) locallyGuarded(f *ssa.Function, instr ssa.Instruction) bool {
+	if ra.local != nil {
+		return ra.local(f, instr)
+	}
 	return mustPrecede(f, instr, func(ssa.Instruction) bool { return false }, flagEdge(ra.fRO, false))
+}
+
+func (ra *roAnalysis) guardName() string {
+	if ra.what != "" {
+		return ra.what
+	}
+	return "ReadOnly"
 }
 
 func (ra *roAnalysis) isRoot(f *ssa.Function) bool {
@@ -139,7 +152,7 @@ func (ra *roAnalysis) callersGuarded(f *ssa.Function, chain *[]string) bool {
 			continue
 		}
 		if !ra.funcGuarded(s.Caller, chain) {
-			*chain = append(*chain, fmt.Sprintf("%s calls %s at %s without a ReadOnly guard", c.fname(s.Caller), c.fname(f), c.instrPos(s.Instr)))
+			*chain = append(*chain, fmt.Sprintf("%s calls %s at %s without a %s guard", c.fname(s.Caller), c.fname(f), c.instrPos(s.Instr), ra.guardName()))
 			return false
 		}
 	}
